@@ -56,8 +56,25 @@ def gen(rng, k):
     transfer = 0 if n == 1 else (npk + 1) * 50000
     cycle = rng.choice([max(transfer + 60000, 100000), max(transfer + 60000, 250000), 1000000 + transfer])
     stop = 1000 + cycle * rng.choice([2, 3]) + rng.choice([1000, cycle // 2])
-    return dict(kind='dm1', dll='j1939-21', lamps=lamps, dtcs=dtcs, cycle=cycle, stop=stop, horizon=stop + 3 * cycle + transfer + 500000,
-                lat=[rng.choice([0, 1, 5000])], nrecv=rng.choice([1, 2]))
+    sc = dict(kind='dm1', dll='j1939-21', lamps=lamps, dtcs=dtcs, cycle=cycle, stop=stop, horizon=stop + 3 * cycle + transfer + 500000,
+              lat=[rng.choice([0, 1, 5000])], nrecv=rng.choice([1, 2]))
+    fam = k % 5
+    if fam == 1:
+        # the application supplies different data every cycle (occurrence counts go up)
+        sc['varying'] = True
+    elif fam == 2 and n >= 2:
+        # ... and the cycle is shorter than the multi-packet transfer: the next cycle fires while the DM1 is still in flight
+        sc['varying'] = True
+        sc['overlap'] = True
+        sc['cycle'] = max(100000, transfer // rng.choice([2, 3]) + 20000)
+        sc['stop'] = 1000 + sc['cycle'] * rng.choice([4, 6]) + 1000
+        sc['horizon'] = sc['stop'] + 2 * transfer + 1_000_000
+    elif fam == 3:
+        # stop_send is called from another timer callback that is registered earlier and due in the same pass
+        sc['stop_mode'] = 'timer'
+        sc['stop_at_firing'] = rng.choice([1, 2, 3])
+        sc['stop'] = 1000 + sc['cycle'] * sc['stop_at_firing']
+    return sc
 
 
 def runner(sc):
@@ -79,11 +96,32 @@ def runner(sc):
         dmA = j1939.Dm1(ca)
         calls = []
 
+        events = []          # ('call', t, supplied dtcs) | ('stop', t) in the order they happened
+        res.events = events
+
         def src():
             calls.append(sim.now)
-            return (dict(zip(KEYS, sc['lamps'])), [dict(spn=s, fmi=f, oc=o) for s, f, o in sc['dtcs']])
+            k = len(calls) - 1
+            dt = [[s, f, (o + k) & 0x7F if sc.get('varying') else o] for s, f, o in sc['dtcs']]
+            events.append(('call', sim.now, dt))
+            return (dict(zip(KEYS, sc['lamps'])), [dict(spn=s, fmi=f, oc=o) for s, f, o in dt])
+
+        def stop():
+            dmA.stop_send(src)
+            events.append(('stop', sim.now))
+        if sc.get('stop_mode') == 'timer':
+            fired = {'n': 0}
+
+            def stopper(cookie):
+                fired['n'] += 1
+                if fired['n'] == sc['stop_at_firing']:
+                    stop()
+                    return False
+                return True
+            sim.at(1000, lambda: A.ecu.add_timer(sc['cycle'] / 1e6, stopper))
         sim.at(1000, lambda: dmA.start_send(src, sc['cycle'] / 1e6))
-        sim.at(sc['stop'], lambda: dmA.stop_send(src))
+        if sc.get('stop_mode') != 'timer':
+            sim.at(sc['stop'], stop)
         sim.run_until(sc['horizon'])
         res.trace = list(sim.trace)
         res.got = got
@@ -97,15 +135,29 @@ def runner(sc):
 
 def oracle(sc, res):
     v = []
-    exp_l, exp_d = sc['lamps'], sc['dtcs']
+    exp_l = sc['lamps']
+    supplied = [e[2] for e in res.events if e[0] == 'call']
     for (t, i, sa, lamps, dtcs) in res.got:
-        if sa != 0x20 or lamps != exp_l or dtcs != exp_d:
-            v.append(dict(kind='dm1-content-differs', t=t, receiver=i, lamps=lamps, dtcs=dtcs[:3], expected_lamps=exp_l, expected_dtcs=exp_d[:3]))
+        # every DM1 that arrives is what the callback supplied at ONE of its calls — never a blend of two cycles
+        if sa != 0x20 or lamps != exp_l or dtcs not in supplied:
+            v.append(dict(kind='dm1-content-differs', t=t, receiver=i, lamps=lamps, dtcs=dtcs[:3], expected_lamps=exp_l, expected_one_of=[d[:3] for d in supplied[:3]]))
             break
     before = [c for c in res.calls if c < sc['stop']]
     after = [c for c in res.calls if c > sc['stop']]
     if after:
         v.append(dict(kind='dm1-sent-after-stop_send', stop=sc['stop'], calls_after=after[:3]))
+    # ... in the order things happened (a stop_send issued from a timer callback takes effect within the same pass)
+    kinds = [e[0] for e in res.events]
+    if 'stop' in kinds and 'call' in kinds[kinds.index('stop'):]:
+        v.append(dict(kind='dm1-callback-invoked-after-stop_send-returned', stop=sc['stop'], events=[(e[0], e[1]) for e in res.events][-4:]))
+    if sc.get('overlap') or sc.get('stop_mode') == 'timer':
+        # cycles that fire while a DM1 is in flight are refused; the per-cycle counts below do not apply
+        for j, js in enumerate(res.job):
+            if js != 'alive':
+                v.append(dict(kind='job-thread-' + js, stack=j))
+        if sc.get('overlap') and not res.got:
+            v.append(dict(kind='dm1-never-delivered', calls=len(res.calls)))
+        return v
     exp_cycles = (sc['stop'] - 1000) // sc['cycle']
     if len(before) != exp_cycles:
         v.append(dict(kind='dm1-cycles', expected=exp_cycles, observed=len(before)))
